@@ -15,7 +15,7 @@ META = {
                     "plain tags that follow a group are members of no group (FIX without a message dictionary is ambiguous otherwise)"],
 }
 REQUIRED_ORACLES = ["roundtrip", "reference-parse", "seqnum"]
-REQUIRED_COUNTERS = ["dialect_protocol_cases"]
+REQUIRED_COUNTERS = ["dialect_protocol_cases", "encodes_right_after_a_refused_one"]
 NSHARDS = 16
 RANDOM = {"quick": 5000, "thorough": 40000}
 MODES = ["normal", "normal", "normal", "possdup", "seqreset", "raw", "dupflag-n", "dupflag-n-stale34", "stale34"]
@@ -109,6 +109,17 @@ def run_case(acc, env, body, mt, mode, n0, carried, case_id, rnd_desc):
     except Exception as e:  # C18's subject; not C01's
         acc.add("generator_build_failed")
         return
+    if (n0 + carried + len(body)) % 11 == 0:
+        # the codec is an object with a life: a message it refused (SOH inside a value that is not the first field) leaves nothing
+        # behind for the next one
+        from asyncfix import FIXMessage as _FM
+        acc.add("encodes_right_after_a_refused_one")
+        try:
+            codec.encode(_FM("D", {11: "refused", 55: "SYM", 58: "a\x01b"}), sess)
+            acc.add("refused_encode_was_not_refused")
+        except Exception:
+            pass
+        sess.next_num_out = n0
     try:
         s = codec.encode(msg, sess, raw_seq_num=(mode == "raw"))
         wire = s.encode("utf-8")
